@@ -890,7 +890,10 @@ func runHistory(c *vf.Ctx, h *History, dir string, rp *witness) {
 	}()
 	stop := len(h.Ops)
 	if rp != nil && rp.AtOp >= 0 && rp.AtOp < stop {
-		stop = rp.AtOp
+		stop = rp.AtOp // a predicate observed inside the check op AtOp: everything before it
+		if rp.Pred == nil {
+			stop = rp.AtOp + 1 // an id / listing observation made by op AtOp itself
+		}
 	}
 	for i := 0; i < stop; i++ {
 		r.opIdx = i
@@ -909,8 +912,12 @@ func runHistory(c *vf.Ctx, h *History, dir string, rp *witness) {
 		if rp.Pred != nil && len(rp.Pred.Leaves) > 0 {
 			r.replayPred(rp.Pred)
 		} else {
-			r.checkLookups("replay", true)
-			r.checkListings("replay")
+			label := "replay"
+			if rp.AtOp >= 0 && rp.AtOp < len(h.Ops) && h.Ops[rp.AtOp].Kind == "check" {
+				label = h.Ops[rp.AtOp].Label
+			}
+			r.checkLookups(label, true)
+			r.checkListings(label)
 		}
 		return
 	}
